@@ -305,17 +305,22 @@ def mutate_case(rng, case):
 
 
 CLAIMED = True
-LEVEL_TEXT = ("Theorems for every lint-clean closed circuit without blackboxes, every order choice of the writer and every reserved set "
-              "containing the identifiers of the text: (C03_roundtrip_identical_bbfree) without constants, reading the primitive-style text "
-              "back succeeds and returns the identical circuit (nodes, types, edges, output marks, name); (C03_roundtrip_equiv_bbfree) in both "
-              "styles, with constants 0/1, reading the text back succeeds and gives a circuit with the same name, inputs, outputs and registry "
-              "that is equivalent to the original on the outputs - and at every node of the original (C03_roundtrip_equiv_bbfree_nodes). Statements for all lint-clean circuits with legal names: "
-              "roundtrip_identical_full and roundtrip_equiv_full; proved parts: the writer's expression for a gate denotes the gate's function "
-              "of its operands (all types, all arities, all operand orders), the reader's gates for it carry that value (C02), the interface of "
-              "a successful read. The composition for circuits with blackboxes / x constants is decided per generated circuit by the Coq "
-              "specification on the recorded read-back circuits (identity of the graph where claimed; interface, registry, pin nets and "
-              "exhaustive function comparison otherwise), directly and through to_file/from_file.")
+LEVEL_TEXT = ("Theorems for every lint-clean closed circuit, every order choice of the writer (ports, registry and pin order, nodes, operands) and "
+              "every reserved set containing the identifiers of the text. Without blackboxes: (C03_roundtrip_identical_bbfree) without constants "
+              "the primitive-style text reads back to the identical circuit; (C03_roundtrip_equiv_bbfree, _nodes, _x) in both styles with any "
+              "constants the read succeeds, gives the same name, inputs, outputs and registry and an equivalent circuit at every node of the "
+              "original (several x constants: under the valuations that give them one value - the reader shares one unknown). With blackbox "
+              "instances (connected and unconnected pins, several instances per type, escaped instance names; extra hypothesis wf_bb: pin-typed "
+              "nodes are registered pins, other names dot-free, nothing reads a bb_input, pins of different instances differ, instance / type "
+              "names no digit-led / primitive names): (C03_roundtrip_identical_bb) without constants the primitive-style text reads back to the "
+              "identical circuit and registry; (C03_roundtrip_equiv_bb, pins not marked as outputs) in both styles with any constants the read "
+              "succeeds, gives the same name, inputs, outputs and registry, every input pin on the same net (or none), every output pin driving "
+              "the same net, and an equivalent circuit at every output and every blackbox input pin. roundtrip_identical_full / "
+              "roundtrip_equiv_full (wf_rt alone) are kept as statements: without wf_bb they are not theorems (a gate called ff0.x, a blackbox "
+              "type called and). Every generated circuit is additionally decided by the Coq specification on the recorded read-back circuits "
+              "(identity of the graph where claimed; interface, registry, pin nets and exhaustive function comparison otherwise), directly and "
+              "through to_file/from_file.")
 LEVEL_NOTE = ("Trusted: Coq kernel + vm_compute, std++, Lark, the harness tokenizer of the writer's text (the text layer - blanks after "
               "escaped names, line layout - is validated by it, not modelled). All 1'bx constants denote one shared unknown. "
-              "roundtrip_identical_full / roundtrip_equiv_full (circuits with blackbox instances) are stated and validated per case, not proved.")
+              "Open: roundtrip_equiv_bb_full for circuits with pin nodes marked as outputs (stated, validated per case).")
 TECHNIQUE = "Coq models of writer and reader + proved expression lemmas + vm_compute correspondence and round-trip oracle"
